@@ -15,8 +15,8 @@
 
    What is NOT a theorem (decided by exhaustive execution on every run, see harness/c20_sweep.py): "returns
    without an internal error at every position, also for a module made invalid by an incomplete line".
-   Dotted completion ([a.b.|]), [name=] proposals and completion after [from m import] are covered by the
-   oracle only.
+   Dotted completion is modelled for receivers that are statically a class (C20_dotted_sound / _complete); other
+   receivers, [name=] proposals and completion after [from m import] are covered by the oracle only.
 
    The theorems C20_sound / C20_complete hold for EVERY scope of the module (path q).  That the scope rope
    selects for a cursor line ([holding_path]: logical start, indentation, get_inner_scope_for_line) is the
@@ -27,7 +27,7 @@
 From Coq Require Import List NArith Bool.
 From RopeVerif.Lib Require Import Text.
 From RopeVerif.C15 Require Import Syntax Scoping RopeScopes Fragment Theorems.
-From RopeVerif.C20 Require Import Split Complete CompleteProofs SplitProofs EraseProofs Witnesses Theorems.
+From RopeVerif.C20 Require Import Split Complete CompleteProofs SplitProofs EraseProofs BindLines BindLinesProofs Dotted DottedProofs Witnesses Theorems.
 Import ListNotations.
 
 (* The scope walk of _undotted_completions finds a name exactly when CPython resolves it from that scope:
@@ -193,9 +193,8 @@ Example C20_starting_offset_after_blank_inhabited :
 Proof. exact split_after_blank_example. Qed.
 Print Assumptions C20_starting_offset_after_blank_inhabited.
 
-(* DEFINITION LINE (PARTIAL).  Full strength would be
-       C20_definition_line : statically_determined p occ -> definition_line p occ = spec_binding_line p occ
-   (the line of the statement that binds the name, read off the syntax).  Proved: the discipline of the names
+(* DEFINITION LINE, the discipline of the names dictionary (the two lemmas the syntax theorems below rest on; kept
+   with their [_partial] names).  Proved: the discipline of the names
    dictionary on the events of a scope, whatever statements produced them - a name whose first event is a plain
    assignment (assignment statement, for / with / except target) and that is later only assigned again has the
    line of that FIRST assignment; a name whose last rebinding event is a def / class statement, a parameter or a
@@ -216,6 +215,108 @@ Theorem C20_definition_line_definition_partial :
     entry_line (pre ++ (x, k, Pay (Some l0) a) :: post) x = Some l0.
 Proof. exact entry_line_definition. Qed.
 Print Assumptions C20_definition_line_definition_partial.
+
+(* DOTTED COMPLETION on a receiver that is statically a class (MODEL coq/C20/Dotted.v: a plain name that Scope.lookup
+   answers with the DefinedName of a class statement; the proposals are PyClass.get_attributes() = the class's own table
+   over what it inherits).  For every module of the fragment and every class scope c of it (cs in rope's tree, ss in
+   CPython's): SOUND - a proposal extends the typed prefix and is a name the class body binds under Python's rules, an
+   instance attribute self.x assigned in one of its methods (rope lists them on purpose), or an inherited attribute;
+   COMPLETE - every name the class body binds whose spelling extends the prefix is proposed.  Receivers that need type
+   inference (instances, call results, modules) are outside the model: oracle only. *)
+Theorem C20_dotted_sound :
+  forall (p : program) (lay : list lineinfo) (nl : N) (bi : list ident) (inh : list nat -> ident -> option binding)
+         (ids : list ident) (spell : ident -> text) (kws : list text),
+    in_fragment_C15 p = true ->
+    forall (c : list nat) (cs : rscope) (ss : sscope) (starting t : text) (k : N),
+      scope_at (rope_tree p) c = Some cs ->
+      sscope_at (spec_tree nl p) c = Some ss ->
+      In (t, k) (dotted_completions_at (world_of p lay bi inh ids spell kws) c starting) ->
+      is_prefix starting t = true /\
+      exists x, In x ids /\ spell x = t /\
+                (In x (spec_names ss)
+                 \/ (In x (keys (revs cs)) /\ has_real (revs cs) x = false)
+                 \/ inh c x <> None).
+Proof. exact dotted_sound. Qed.
+Print Assumptions C20_dotted_sound.
+
+Theorem C20_dotted_complete :
+  forall (p : program) (lay : list lineinfo) (nl : N) (bi : list ident) (inh : list nat -> ident -> option binding)
+         (ids : list ident) (spell : ident -> text) (kws : list text),
+    in_fragment_C15 p = true ->
+    forall (c : list nat) (cs : rscope) (ss : sscope) (starting : text) (x : ident),
+      scope_at (rope_tree p) c = Some cs ->
+      sscope_at (spec_tree nl p) c = Some ss ->
+      In x ids -> In x (spec_names ss) -> is_prefix starting (spell x) = true ->
+      exists k, In (spell x, k) (dotted_completions_at (world_of p lay bi inh ids spell kws) c starting).
+Proof. exact dotted_complete. Qed.
+Print Assumptions C20_dotted_complete.
+
+Example C20_dotted_inhabited :
+  in_fragment_C15 w_klass = true
+  /\ receiver_class world_klass (holding_path world_klass 6) 0%N = Some [0%nat]
+  /\ dotted_completions world_klass 6 0%N [107%N] = Some [([107; 97]%N, 6%N); ([107; 98]%N, 6%N)]
+  /\ dotted_completions world_klass 6 0%N [] = Some [([107; 97]%N, 6%N); ([109; 101]%N, 6%N); ([107; 98]%N, 6%N)]
+  /\ (exists cs ss, scope_at (rope_tree w_klass) [0%nat] = Some cs /\ sscope_at (spec_tree 7 w_klass) [0%nat] = Some ss
+                    /\ In 1%N (spec_names ss) /\ In 2%N (spec_names ss)).
+Proof. exact klass_example. Qed.
+Print Assumptions C20_dotted_inhabited.
+
+(* DEFINITION LINE FROM THE SYNTAX.  SPEC: [s_bind_lines] (coq/C20/BindLines.v) is C15's [s_binds] - the names a
+   statement binds in its block - annotated with the statement's line and the kind of construct; [determined body x l]:
+   x is bound in the block by an assignment / for / with / except target, a def or a class statement, every binding of
+   x in the block is of such a kind and on line l, and x is not declared global there.  (Not covered, each a recorded
+   deviation: imports - the definition is in the imported module -, walrus targets and bare annotations - finding
+   C20-definition-line-unknown -, names bound only by augmented assignment or del - C15 -, and a value that starts on
+   a continuation line - C20-definition-line-of-value; the correspondence keeps those apart.) *)
+Theorem C20_binding_lines_are_C15 :
+  forall s : stmt, map bname (s_bind_lines s) = s_binds s.
+Proof. exact bind_lines_names. Qed.
+Print Assumptions C20_binding_lines_are_C15.
+
+(* go-to-definition on a module-level name of a module of the fragment leads to the line of its binding statement *)
+Theorem C20_definition_line_module :
+  forall (p : program) (lay : list lineinfo) (bi : list ident) (inh : list nat -> ident -> option binding)
+         (ids : list ident) (spell : ident -> text) (kws : list text) (x : ident) (l : N),
+    in_fragment_C15 p = true ->
+    determined p x l ->
+    definition_line (world_of p lay bi inh ids spell kws) [] x = Some l.
+Proof. exact module_definition_line. Qed.
+Print Assumptions C20_definition_line_module.
+
+(* the same for every def statement of the fragment, wherever it stands, on the table of the function's own scope
+   ([function_levents] is the table [ls_scopes] puts into the tree for the statement: C20_function_scope_table; a
+   lookup that answers with that scope reads its line there: [binding_line]) *)
+Theorem C20_definition_line_local :
+  forall (mn mn' : list ident) (cls : bool) (l st : N) (d : list expr) (n : occ) (ps : list param) (ae : list expr)
+         (r : option expr) (body : list stmt) (x : ident) (lx : N),
+    frag_stmt mn cls (SDef l st d n ps ae r body) = true ->
+    ~ In x (map pname ps) ->
+    determined body x lx ->
+    entry_line (function_levents mn' l d ps ae r body) x = Some lx.
+Proof. exact local_definition_line. Qed.
+Print Assumptions C20_definition_line_local.
+
+(* a parameter rope records (plain, *args, **kwargs) has the line of its def statement, whatever the body does *)
+Theorem C20_definition_line_parameter :
+  forall (mn' : list ident) (l : N) (d : list expr) (ps : list param) (ae : list expr) (r : option expr)
+         (body : list stmt) (x : ident),
+    In x (rope_param_names ps) ->
+    entry_line (function_levents mn' l d ps ae r body) x = Some l.
+Proof. exact parameter_definition_line. Qed.
+Print Assumptions C20_definition_line_parameter.
+
+Theorem C20_function_scope_table :
+  forall (mn' : list ident) (cls : bool) (l st : N) (d : list expr) (n : occ) (ps : list param) (ae : list expr)
+         (r : option expr) (body : list stmt),
+    exists rest cs,
+      ls_scopes mn' cls (SDef l st d n ps ae r body) = LScope (function_levents mn' l d ps ae r body) cs :: rest.
+Proof. exact function_scope_is. Qed.
+Print Assumptions C20_function_scope_table.
+
+Example C20_determined_inhabited :
+  in_fragment_C15 w_demo = true /\ determined w_demo 1%N 2%N /\ determined w_demo 2%N 3%N.
+Proof. exact (conj (proj1 demo_example) demo_determined). Qed.
+Print Assumptions C20_determined_inhabited.
 
 (* COHERENCE of the two trees the model walks: the tree of l-events (definition lines) erases to C15's rope_tree -
    a path addresses a scope in one iff in the other, with the same events in the same order once the payload is
